@@ -25,6 +25,11 @@ MODULE_CANON = [("ruby:2.5:20180123:c0ffee", ("ruby", "2.5", "20180123", "c0ffee
 CATS = ["binary", "debug", "source"]
 
 
+class Sink(object):
+    def write(self, s):
+        pass
+
+
 def clone(x):
     if isinstance(x, dict):
         return dict((k, clone(v)) for k, v in x.items())
@@ -147,6 +152,11 @@ def extra_roundtrip(sym, history, share=False):
             m.add(variant, arch, path, size, cs)
             expected.setdefault(variant, {}).setdefault(arch, []).append({"file": path, "size": size, "checksums": dict(cs)})
         sym.check("built-mapping-follows-the-calls", m.extra_files == expected)
+        # a per-tree view is written in between (a read-only export): the manifest that is written afterwards is still what the calls said
+        for variant in sorted(expected):
+            for arch in sorted(expected[variant]):
+                m.dump_for_tree(Sink(), variant, arch, sym.str("base_%s_%s" % (variant.replace("-", "_"), arch), 3))
+        sym.check("mapping-untouched-by-the-per-tree-views", m.extra_files == expected)
         before = clone(m.extra_files)
         text = m.dumps()
     except (ValueError, TypeError):
